@@ -14,7 +14,10 @@ def main():
     for d in sorted(glob.glob(os.path.join(HERE, "seeded", "*"))):
         m = json.load(open(os.path.join(d, "meta.json")))
         n += 1
-        rows.append("| %s | %s | %s |" % (m["id"], m["change"].replace("|", "/"), m["detected_by"].replace("|", "/")))
+        ch = " ".join(m["change"].replace("|", "/").split())
+        if len(ch) > 340:
+            ch = ch[:337].rsplit(" ", 1)[0] + " ..."   # the full text is in seeded/<id>/meta.json
+        rows.append("| %s | %s | %s |" % (m["id"], ch, " ".join(m["detected_by"].replace("|", "/").split())))
     p = os.path.join(HERE, "DESIGN.md")
     s = open(p).read()
     a, b = s.index(BEGIN) + len(BEGIN), s.index(END)
